@@ -61,11 +61,13 @@ func checks() []check {
 		{ID: "C16", Level: "model_checking", Parts: []part{
 			{Name: "histories", Pkg: "pkg/aliyun/client", Run: "^TestVerifC16Histories$", Sets: []string{"weave"}, Weave: []string{"pkg/aliyun/client"}},
 			{Name: "concurrent", Pkg: "pkg/aliyun/client", Run: "^TestVerifC16Concurrent$", Sets: []string{"weave"}, Weave: []string{"pkg/aliyun/client"}},
+			{Name: "race-pass", Pkg: "pkg/aliyun/client", Run: "^TestVerifC16Race$", Race: true, Aux: true},
 		}},
 		{ID: "C17", Level: "model_checking", Parts: []part{
 			{Name: "select", Pkg: "pkg/vswitch", Run: "^TestVerifC17Select$", Sets: []string{"weave"}, Weave: []string{"pkg/vswitch"}},
 			{Name: "block-history", Pkg: "pkg/vswitch", Run: "^TestVerifC17Block$", Sets: []string{"weave"}, Weave: []string{"pkg/vswitch"}},
 			{Name: "concurrent", Pkg: "pkg/vswitch", Run: "^TestVerifC17Concurrent$", Sets: []string{"weave"}, Weave: []string{"pkg/vswitch"}},
+			{Name: "race-pass", Pkg: "pkg/vswitch", Run: "^TestVerifC17Race$", Race: true, Aux: true},
 		}},
 		{ID: "C15", Level: "model_checking", Parts: []part{
 			{Name: "bandwidth", Pkg: "pkg/k8s", Run: "^TestVerifC15Bandwidth$"},
